@@ -124,7 +124,27 @@ impl<'tcx> Extractor<'tcx> {
     }
 
     fn path(&self, d: DefId) -> String {
-        let p = with_no_visible_paths!(with_no_trimmed_paths!(with_crate_prefix!(self.tcx.def_path_str(d))));
+        let tcx = self.tcx;
+        // items of trait impls: always print as <SelfTy as Trait>::name (def_path_str falls back to the
+        // module path for impls on foreign/primitive self types, which is ambiguous)
+        if matches!(tcx.def_kind(d), DefKind::AssocFn | DefKind::AssocConst { .. } | DefKind::AssocTy) {
+            if let Some(par) = tcx.opt_parent(d) {
+                if matches!(tcx.def_kind(par), DefKind::Impl { .. }) {
+                    if let (Some(tr), Some(name)) = (tcx.impl_opt_trait_ref(par), tcx.opt_item_name(d)) {
+                        let tr = tr.instantiate_identity().skip_norm_wip();
+                        let st = tcx.type_of(par).instantiate_identity().skip_norm_wip();
+                        let p = with_no_visible_paths!(with_no_trimmed_paths!(with_crate_prefix!(format!(
+                            "<{} as {}>::{}",
+                            st,
+                            tr.print_only_trait_path(),
+                            name
+                        ))));
+                        return self.fix_crate(p);
+                    }
+                }
+            }
+        }
+        let p = with_no_visible_paths!(with_no_trimmed_paths!(with_crate_prefix!(tcx.def_path_str(d))));
         self.fix_crate(p)
     }
 
